@@ -109,7 +109,7 @@ constexpr int MAX_WORKERS = 64;
 constexpr int NCOUNTERS = 48;
 constexpr int SLOT_BYTES = 1 << 16;
 constexpr int MAX_VIOL_FILES = 12;      // replay files kept per run (others are counted only)
-constexpr int NSAMPLES = 6;
+constexpr int NSAMPLES = 8;
 
 struct Shared {
     std::atomic<uint64_t> next_task;
